@@ -756,8 +756,20 @@ class LifeRun(Base):
             raise Violation("tld_answer_depends_on_history", "boot", r([d[0] for d in diff]), r([d[1] for d in diff]), {"note": "same label asked before and after an unrelated suffix query"})
         return module
 
+    def tld_answers_before_restart(self):
+        """(TLD list held, answers for a few of its entries and for a label that was
+        never listed) in the process that is about to be replaced."""
+        try:
+            tld = self.node.tld
+            held = [str(t) for t in list(tld.tld_data.TLDS)]
+        except Exception:  # noqa: no process yet, or the list is not a list
+            return None
+        labels = held[:3] + held[-3:] + ["neverlisted"]
+        return sorted(held), [(t, tld.is_valid_tld(t)) for t in labels]
+
     def boot(self, op):
         stats = self.stats
+        before = self.tld_answers_before_restart() if self.expected is not None else None
         try:
             module = self.boot_and_probe()
         except SimCrash:
@@ -771,6 +783,17 @@ class LifeRun(Base):
             self.disk.files[self.node.data_path] = self.last_good
             module = self.boot_and_probe()
         stats.probe("restart_ok")
+        if before is not None and before[0] == sorted(str(t) for t in module.TLDS):
+            # same TLD list before and after the restart: "depends only on the last
+            # label" means the same label gets the same answer in both processes
+            # (asked only about listed TLDs and a never-listed label: TLD_SET is only
+            # ever added to, so a TLD dropped by an earlier upgrade may linger, §6)
+            after = [(t, self.node.tld.is_valid_tld(t)) for t, _ in before[1]]
+            stats.checks += 1
+            if after != before[1]:
+                diff = [(a, b) for a, b in zip(before[1], after) if a != b][:3]
+                raise Violation("tld_answer_depends_on_history", op, r([d[0] for d in diff]), r([d[1] for d in diff]), {"note": "same TLD list, same label, asked before and after a restart"})
+            stats.probe("tld_answers_compared_across_restart")
         self.last_good = self.disk.files[self.node.data_path]
         loaded = list(module.PUBLIC_SUFFIXES) + list(module.PRIVATE_SUFFIXES)
         if sorted(self.current_lists()) != sorted(loaded):
